@@ -198,6 +198,49 @@ class DictSystem:
             keys = sorted(keys)
         return [(k, bytes(s.d[k])) for k in keys]
 
+    def post_check(self, s, ev):
+        """complete read-back against the model (and, for PickledDict, once more after close+open); the object is disposed afterwards"""
+        probs = []
+        if s.closed:
+            if self.pickled:
+                try:
+                    again = self.cls.open(s.path)
+                    try:
+                        got = [(k, bytes(again[k])) for k in again]
+                    finally:
+                        again.close()
+                    want = [(k, bytes(v)) for k, v in s.model.items()]
+                    if got != want:
+                        probs.append(('contents-differ-after-close-and-open', ev[0], want, got))
+                except Exception as e:
+                    probs.append(('cannot-open-after-close', ev[0], 'dictionary opens', core.exc_text(e)))
+            return probs
+        want = [(k, bytes(v)) for k, v in (s.model.items() if self.pickled else sorted(s.model.items()))]
+        try:
+            got = self.full(s)
+            if got != want:
+                probs.append(('contents-differ-from-model-after', ev[0], want, got))
+            n, keys = len(s.d), [k for k, _ in want]
+            if n != len(want) or any((k in s.d) is False for k in keys):
+                probs.append(('len-or-membership-differ-from-model-after', ev[0], (len(want), keys), n))
+            if self.pickled:
+                s.d.close()
+                again = self.cls.open(s.path)
+                try:
+                    got2 = [(k, bytes(again[k])) for k in again]
+                finally:
+                    again.close()
+                if got2 != want:
+                    probs.append(('contents-differ-after-close-and-open', ev[0], want, got2))
+            else:
+                s.d.sync()
+                got3 = self.full(s)
+                if got3 != want:
+                    probs.append(('contents-differ-from-model-after-sync-following', ev[0], want, got3))
+        except Exception as e:
+            probs.append(('unreadable-after', ev[0], want, core.exc_text(e)))
+        return probs
+
     def step(self, s, ev):
         probs = []
         was_closed = s.closed
